@@ -1,0 +1,42 @@
+/*
+ * SPDX-FileCopyrightText: © 2017-2025 Istari Digital, Inc.
+ * SPDX-License-Identifier: Apache-2.0
+ */
+
+package ristretto
+
+// Identifiers of the verification hook points (see verif_on.go). With the `verif` build tag off,
+// verifPoint and verifSample are empty functions and the call sites compile to nothing.
+const (
+	vpSetUpdated   = iota + 1 // SetWithTTL: after store.Update (+onExit), before the send; b = item flag
+	vpSetSent                 // SetWithTTL: item sent to setBuf
+	vpSetDropped              // SetWithTTL: setBuf full, item dropped (or update kept)
+	vpDelDetached             // Del: after store.Del (+onExit), before the blocking send
+	vpDelSent                 // Del: tombstone sent
+	vpAppTop                  // processItems: top of the loop, before the select
+	vpAppRecv                 // processItems: non-marker item received; b = item flag
+	vpAppMarker               // processItems: wait marker received and closed
+	vpAppAdded                // processItems: policy.Add returned; b = added<<32 | len(victims)
+	vpAppVictim               // processItems: before store.Del of a victim
+	vpAppDelPol               // processItems: tombstone, between policy.Del and store.Del
+	vpAppStop                 // processItems: stop received
+	vpSweepGrabbed            // cleanup: buckets grabbed, em lock released; a = number of buckets
+	vpSweepKey                // cleanup: next key chosen, before store.Expiration
+	vpSweepSkip               // cleanup: key skipped (not expired according to the store)
+	vpSweepChecked            // cleanup: key judged expired, before policy.Cost/Del
+	vpSweepPolDel             // cleanup: after policy.Del, before store.Del
+	vpSweepDone               // cleanup: finished
+	vpClearStopped            // Clear: applier stopped
+	vpClearDrained            // Clear: setBuf drained
+	vpClearPolicy             // Clear: policy cleared
+	vpClearStore              // Clear: store cleared
+	vpCloseCleared            // Close: Clear returned
+	vpPolAddEnter             // policy.Add: under the policy lock, before any decision; b = cost
+)
+
+func verifBool(b bool) uint64 {
+	if b {
+		return 1
+	}
+	return 0
+}
